@@ -139,7 +139,11 @@ class SFTPHandle(ClosingContextManager):
         except IOError as e:
             self.__tell = None
             return SFTPServer.convert_errno(e.errno)
-        if self.__tell is not None:
+        if (self.__flags & os.O_APPEND) != 0:
+            # the append moved the file position to the new end of file, so
+            # the cached position no longer describes it
+            self.__tell = None
+        elif self.__tell is not None:
             self.__tell += len(data)
         return SFTP_OK
 
